@@ -38,18 +38,20 @@ func (Prop) Rule() string {
 		"all histories of length 11 made of the default Generate(hs,none) with <= 2 departures over the full alphabet (both tiers) and <= 3 departures over a reduced 19/17-op alphabet (thorough), " +
 		"BFS with merging on identical (complete private state dump + model state) to depth 3 (quick) / 4 (thorough) from the fresh state and from the state one call before the interval; " +
 		"instantiate length product entropy{0,1,13,14,31,32,33,64,111} x nonce{0,1,7,15,16,17,32} x personalisation{0,1,55,64} each followed by a 5-step script; " +
-		"interval boundary at level 2 (1024 calls, both tiers) and level 1 (2^20 calls, thorough) with every output compared. " +
+		"interval boundary at level 2 (1024 calls, both tiers) and level 1 (2^20 calls, thorough) with every output compared; " +
+		"length sweeps on one long-lived generator: every request size 0..max+1 with and without additional input, Generate additional-input lengths 0..150, Reseed entropy 32..81 x 24 additional lengths, personalisation lengths 0..150. " +
 		"Oracle per step: exact model bytes; nil / ErrReseedRequired / other error class; on refusal output buffer and private state dump unchanged; refusal exactly from call interval+1 (or after Elapse in GM flavour) until a successful Reseed; " +
 		"a successful (re)seed must restart the timer inside the window of the call; requests above the library's own cap: error with state untouched or the model bytes. " +
 		"E4 on DrbgPrng: all sequences of 2 (quick) / 3 (thorough) events over Read sizes {0,1,max-1,max,max+1,2max+1,9max+1} and (GM) Elapse, fault-free and with one non-default source answer " +
-		"(error, EOF, short+EOF, short-then-EOF, (0,nil), short-nil, full+EOF) at every source call index (thorough: every pair of such answers for 2-event sequences); " +
+		"(error, EOF, short+EOF, short-then-EOF, (0,nil), short-nil, full+EOF) at every source call index (thorough: every pair of such answers for 2-event sequences, two personalisation strings, strengths 16 and 32 for NIST flavours); " +
 		"oracle: exactly the model bytes of the chained generate/reseed schedule with the bytes the source delivered, an error whenever the source failed or was short, no error otherwise. " +
+		"The c-purego configuration (thorough tier only) runs with the quick-tier bounds. " +
 		"distinct_nontrivial counts distinct reached (implementation state, model state) pairs plus distinct (instance, sequence, fault placement) reader scenarios."
 }
 
 func (Prop) Assumptions() []string {
 	return []string{
-		"reference Hash_DRBG / HMAC_DRBG / CTR_DRBG(df) written from SP 800-90A Rev.1 10.1.1, 10.1.2, 10.2.1, 10.3 with math/big additions and an RFC 2104 HMAC; anchored by 38 CAVP samples (SHA-1/256/512 Hash_DRBG and HMAC_DRBG, AES-128/192/256 CTR_DRBG) quoted in /repo/drbg/*_test.go; SHA-2 and AES come from the Go standard library, SM3/SM4 from verif/ref",
+		"reference Hash_DRBG / HMAC_DRBG / CTR_DRBG(df) written from SP 800-90A Rev.1 10.1.1, 10.1.2, 10.2.1, 10.3 with math/big additions and an RFC 2104 HMAC; anchored by 43 CAVP samples (6 Hash_DRBG and 30 HMAC_DRBG over SHA-1/256/512, 7 CTR_DRBG over AES-128/192/256) quoted in /repo/drbg/*_test.go; SHA-2 and AES come from the Go standard library, SM3/SM4 from verif/ref",
 		"GM/T 0105-2021 variations (Hash reseed seed-material order 0x01||entropy||V||additional, one output block per request for Hash and CTR, minimum entropy 32 / nonce 16 bytes, time-based reseed) have no public vectors: the model mirrors the behaviour documented in the comments of /repo/drbg and is anchored only by the SM3/SM4 values the repository's own tests pin; HMAC_DRBG with the gm flag is taken to be the NIST mechanism plus the time rule",
 		"clock seam: the single time.Time inside the generator is located by reflection and taken to be 'time of last (re)seed' compared against a configured duration; after each successful (re)seed it is parked at 2200-01-01 and Elapse moves it to 1970-01-01 (fixed instants instead of now+1h / now-interval-1h so that state dumps are identical in every process); the exact time boundary (interval +/- epsilon) is not explored",
 		"inside one DrbgPrng.Read the harness cannot park the timer between an automatic reseed and the following request; a stall of more than the 6 s test interval at that point would be seen as an output mismatch and is left to the engine's 5x confirmation",
@@ -79,6 +81,9 @@ func repeat(x, n int) []int {
 }
 
 func (Prop) Run(c *engine.Ctx) {
+	// The purego build only swaps the SM3/SM4 primitives under the same generator code: it gets the
+	// quick-tier bounds even in the thorough tier.
+	lite := c.Quick() || c.Config == "c-purego"
 	for _, in := range instances() {
 		in := in
 		libMax := probeMax(in)
@@ -100,7 +105,7 @@ func (Prop) Run(c *engine.Ctx) {
 
 		// B. BFS from the fresh state and from one call before the interval, cut by first operation
 		depth := 3
-		if !c.Quick() {
+		if !lite {
 			depth = 4
 		}
 		for f := range ops {
@@ -136,7 +141,7 @@ func (Prop) Run(c *engine.Ctx) {
 		}
 
 		// D. thorough: <= 3 departures over the reduced alphabet, cut by (position, operation) of the first departure
-		if !c.Quick() {
+		if !lite {
 			for p := 0; p < horizon; p++ {
 				for f := range rops {
 					if f == rdef {
@@ -152,12 +157,12 @@ func (Prop) Run(c *engine.Ctx) {
 
 		// E. the other configured intervals
 		c.Case(in.name+"/interval/level2=1024", func(t *engine.T) { levelBoundary(t, in, drbg.SECURITY_LEVEL_TWO, l2Interval) })
-		if !c.Quick() {
+		if !lite {
 			c.Case(in.name+"/interval/level1=2^20", func(t *engine.T) { levelBoundary(t, in, drbg.SECURITY_LEVEL_ONE, l1Interval) })
 		}
 
 		// F. DrbgPrng
-		prngCases(c, in, libMax)
+		prngCases(c, in, libMax, lite)
 	}
 }
 
@@ -304,7 +309,7 @@ func levelBoundary(t *engine.T, in *inst, level drbg.SecurityLevel, interval uin
 	}
 }
 
-func prngCases(c *engine.Ctx, in *inst, chunk int) {
+func prngCases(c *engine.Ctx, in *inst, chunk int, lite bool) {
 	sizes := uniqSorted([]int{0, 1, chunk - 1, chunk, chunk + 1, 2*chunk + 1, (testInterval+1)*chunk + 1})
 	var events []pev
 	for _, s := range sizes {
@@ -316,38 +321,44 @@ func prngCases(c *engine.Ctx, in *inst, chunk int) {
 	L := 2
 	strengths := []int{32}
 	perss := [][]byte{nil}
-	if !c.Quick() {
+	if !lite {
 		L = 3
 		perss = append(perss, det(rolePers, 8))
 		if !in.gm {
 			strengths = []int{16, 32}
 		}
 	}
-	for _, first := range events {
-		first := first
-		c.Case(fmt.Sprintf("%s/prng/len=%d/first=%s", in.name, L, first), func(t *engine.T) {
-			seq := make([]pev, L)
-			seq[0] = first
-			var rec func(i int)
-			rec = func(i int) {
-				if t.Failed() {
-					return
-				}
-				if i == L {
-					for _, strength := range strengths {
-						for _, pers := range perss {
-							prngFaults(t, in, chunk, strength, pers, seq, L == 2 && !t.Quick())
-						}
+	enum := func(L int, pairs bool, label string) {
+		for _, first := range events {
+			first := first
+			c.Case(fmt.Sprintf("%s/prng/len=%d/%s/first=%s", in.name, L, label, first), func(t *engine.T) {
+				seq := make([]pev, L)
+				seq[0] = first
+				var rec func(i int)
+				rec = func(i int) {
+					if t.Failed() {
+						return
 					}
-					return
+					if i == L {
+						for _, strength := range strengths {
+							for _, pers := range perss {
+								prngFaults(t, in, chunk, strength, pers, seq, pairs)
+							}
+						}
+						return
+					}
+					for _, e := range events {
+						seq[i] = e
+						rec(i + 1)
+					}
 				}
-				for _, e := range events {
-					seq[i] = e
-					rec(i + 1)
-				}
-			}
-			rec(1)
-		})
+				rec(1)
+			})
+		}
+	}
+	enum(L, false, "faults<=1")
+	if !lite {
+		enum(2, true, "faults<=2")
 	}
 }
 
